@@ -83,6 +83,24 @@ func (x *Exec) intrinsic(fr *Frame, fn *ssa.Function, name string, args []Value,
 		return IfaceV{Nil: False(), Tag: "error"}, true
 	case name == "os.Exit", name == "github.com/calee0219/fatal.Fatalf", name == "log.Fatalf", name == "log.Fatal":
 		x.assumedCtr["os.Exit/fatal.Fatalf (do not return)"] = true
+		if name == "os.Exit" && x.exitNonZero && len(args) == 1 {
+			// an error handler must end the process with a non-zero status
+			saved := x.ghost
+			x.ghost = 0
+			x.curFunc = append(x.curFunc, x.harness)
+			x.oblige("F", "exit-status", Not(Eq(term(args[0]), bv64(0))), pos)
+			x.curFunc = x.curFunc[:len(x.curFunc)-1]
+			x.ghost = saved
+		}
+		if name == "os.Exit" && x.driver && len(args) == 1 {
+			// fail-stop means a non-zero exit status when a fault has happened
+			saved := x.ghost
+			x.ghost = 0
+			x.curFunc = append(x.curFunc, x.harness)
+			x.oblige("F", "exit-status", Imp(x.getFlag(faultFlag), Not(Eq(term(args[0]), bv64(0)))), pos)
+			x.curFunc = x.curFunc[:len(x.curFunc)-1]
+			x.ghost = saved
+		}
 		if x.io != nil {
 			x.io.exits = append(x.io.exits, x.st.pc)
 		}
@@ -115,6 +133,11 @@ func (x *Exec) vcIntrinsic(fr *Frame, name string, args []Value, pos token.Pos) 
 		c := term(args[1])
 		if cm != nil && cm.probe {
 			cm.reqs = append(cm.reqs, c)
+			return nil
+		}
+		if cm != nil && !cm.prove && x.assumePre {
+			x.notes["callee preconditions assumed (driver-level target): "+shortFn(cm.fn)] = true
+			x.assume(c)
 			return nil
 		}
 		if cm != nil && !cm.prove {
